@@ -556,7 +556,6 @@ theorem stepReadL_refused_locks {α} (z : α) (lut : List LutRow) (frames : List
     (hl : q.labelmap = false) (hu : uniquePos lut = true)
     (hstd : stdRowColIndices q.rs q.re q.cs q.ce rows cols q.asIdx false = .ok (r0, r1, c0, c1))
     (hcnt : expectedCount r0 r1 c0 c1 th tw = .ok cnt) (hk : (q.data.map Prod.fst).Nodup) (href : q.bodyRefuses = true)
-    (hnc : tempTableCleanupOnError = false)
     (r : LutRow) (hr : r ∈ lut) (hsel : selected r0 r1 c0 c1 th tw r = true) (t : Int × Int) (ht : t ∈ q.data) (htr : t.2 = r.ch) :
     stepReadL z lut frames rows cols th tw full am false true q ⟨st, false⟩ = (⟨some q.data, true⟩, .error .value) := by
   have hrows : (joinRows ((lut.filter (selected r0 r1 c0 c1 th tw)).mergeSort lutLe) q.data).isEmpty = false := by
@@ -569,9 +568,15 @@ theorem stepReadL_refused_locks {α} (z : α) (lut : List LutRow) (frames : List
     cases hj : joinRows ((lut.filter (selected r0 r1 c0 c1 th tw)).mergeSort lutLe) q.data with
     | nil => rw [hj] at hm; simp at hm
     | cons a l => rfl
+  -- a clean-up in a `finally` would hit the locked table as well: the DROP fails, the table stays
+  have hclean : (runOpsL true tempTableCleanup q.data (some q.data)).1 = some q.data := by
+    simp [tempTableCleanup, runOpsL, tempOpL]
   unfold stepReadL
-  simp only [hl, Bool.false_eq_true, if_false, hu, Bool.not_true, hstd, hcnt, runOpsL_unlocked, tempSetup_exact q.data st hk, href,
-    if_true, hnc, hrows, Bool.not_false, Bool.and_self]
+  by_cases hnc : tempTableCleanupOnError = true
+  · simp only [hl, Bool.false_eq_true, if_false, hu, Bool.not_true, hstd, hcnt, runOpsL_unlocked, tempSetup_exact q.data st hk, href,
+      if_true, hnc, hrows, Bool.not_false, Bool.and_self, hclean]
+  · simp only [hl, Bool.false_eq_true, if_false, hu, Bool.not_true, hstd, hcnt, runOpsL_unlocked, tempSetup_exact q.data st hk, href,
+      if_true, hnc, hrows, Bool.not_false, Bool.and_self]
 
 /-- **a locked connection refuses every segment-aware read** that gets as far as the set-up -/
 theorem stepReadL_locked_refuses {α} (z : α) (lut : List LutRow) (frames : List (Img α)) (rows cols th tw : Int) (full am closes kept : Bool)
